@@ -674,6 +674,10 @@ impl<'a> W<'a> {
             // larger than anything the repository's tests use: 1024 signatures = 2049 multiscalar terms
             n = 1024;
         }
+        if self.rng.chance(1, if self.thorough { 150 } else { 700 }) {
+            // beyond 4096 entries (an implementation that works in blocks must not lose the tail)
+            n = 4100;
+        }
         bump(&mut self.c, &format!("probe:batch_n={}", n));
         let q = 2 + self.rng.below(2) as u8;
         let nsign = 1 + self.rng.below(5) as usize;
@@ -882,7 +886,10 @@ impl<'a> W<'a> {
                 self.emit(Step::MMul { u: B(u.to_vec()), s });
             }
             2 => {
-                let nbytes = self.rng.below(40) as usize;
+                let nbytes = if self.rng.chance(1, 6) { 64 + self.rng.below(64) as usize } else { self.rng.below(40) as usize };
+                if nbytes > 64 {
+                    bump(&mut self.c, "probe:ladder_bit_string_longer_than_512");
+                }
                 let mut bits = self.rng.bytes(nbytes);
                 match self.rng.below(4) {
                     0 => bits.iter_mut().for_each(|b| *b = 0xff),
